@@ -26,7 +26,8 @@ NATIVE_PY = os.environ.get('VERIF_NATIVE_PYTHON', '/venv/bin/python')
 sys.path.insert(0, HERE)
 sys.path.insert(0, REPO)
 
-CONTRACT_MODULES = ['contracts.validators', 'contracts.ir_types', 'contracts.canary', 'lemmas.c10']
+CONTRACT_MODULES = ['contracts.validators', 'contracts.ir_types', 'contracts.runtime_base', 'contracts.serializers',
+                    'contracts.canary', 'lemmas.c10']
 
 
 def load_contracts():
